@@ -650,3 +650,6 @@ func ResolveNumbers(root *Node) error {
 	}
 	return nil
 }
+
+// FloatOfLiteral returns the correctly rounded float64 of a grammar-valid literal and whether it is finite.
+func FloatOfLiteral(lit string) (float64, bool) { return floatOf(lit) }
